@@ -50,7 +50,8 @@ class Recorder:
 
     def __init__(self, p):
         self.p = p
-        self.draws = {}        # name -> list of vectors returned during the call
+        self.draws = {}        # name -> list of vectors returned during the call (the checker's private copies)
+        self.handed = {}       # name -> the array objects actually handed to the library (persistent, like pre-generated noise)
         self.inputs = {}       # node -> list of arrays received by its assignment
         self.bad_n = []
 
@@ -62,7 +63,9 @@ class Recorder:
             n = int(n)
             v = np.array([(index * 64 + k * 8 + r + 1) / 8.0 - 20.0 for r in range(n)], dtype=float)
             self.draws[name].append(v)
-            return v.copy()
+            h = v.copy()
+            self.handed.setdefault(name, []).append(h)
+            return h
         draw.__name__ = name
         return draw
 
@@ -145,6 +148,10 @@ def check_case(p, code, lab, fam, src, states, n, ch=None):
     fails = []
     if rec.bad_n:
         fails.append(("noise-called-with-wrong-n", "%s: a noise callable was called with n=%r" % (d, rec.bad_n[0])))
+    for name, hs in rec.handed.items():
+        if any(not np.array_equal(h, v) for h, v in zip(hs, rec.draws[name])):
+            fails.append(("callable-result-modified", "%s: the array returned by the callable %s was modified in place by the library (a callable that hands out views of "
+                          "pre-generated noise would be corrupted for later draws)" % (d, name)))
     for name, vs in rec.draws.items():
         if any(len(v) != n for v in vs):
             fails.append(("noise-called-with-wrong-n", "%s: %s was asked for %s values" % (d, name, [len(v) for v in vs])))
